@@ -39,15 +39,17 @@ class Divergence(Exception):
 
 # ------------------------------------------------------------------------------------------- set-order seam
 class OrderedChoiceSet:
-    """duck-typed set whose iteration order is decided by the explorer (not a subclass of set:
-    builtin set.copy() on a subclass returns a plain set)"""
+    """duck-typed set (complete set API) whose iteration order is decided by the explorer.  Not a subclass of
+    set: builtin set methods on a subclass return plain sets and iterate without asking."""
     controller = None     # GenRun that owns iteration orders
+    __hash__ = None
 
     def __init__(self, it=()):
         self._d = {}
         for x in it:
             self._d[x] = None
 
+    # ---- element operations
     def add(self, x):
         self._d[x] = None
 
@@ -56,6 +58,15 @@ class OrderedChoiceSet:
 
     def discard(self, x):
         self._d.pop(x, None)
+
+    def pop(self):
+        for x in self:
+            del self._d[x]
+            return x
+        raise KeyError("pop from an empty set")
+
+    def clear(self):
+        self._d.clear()
 
     def copy(self):
         c = OrderedChoiceSet()
@@ -75,35 +86,108 @@ class OrderedChoiceSet:
             items = ctl.order_point(items)
         return iter(items)
 
-    def __eq__(self, other):
-        if isinstance(other, OrderedChoiceSet):
-            return set(self._d) == set(other._d)
-        try:
-            return set(self._d) == set(other)
-        except TypeError:
-            return NotImplemented
-
     def __repr__(self):
         return "OrderedChoiceSet(%r)" % sorted(self._d, key=repr)
 
-    def __le__(self, other):
-        return all(x in other for x in self._d)
+    # ---- helpers (membership based, never iterate `self` in an order-revealing way)
+    @staticmethod
+    def _keys(other):
+        if isinstance(other, OrderedChoiceSet):
+            return list(other._d.keys())
+        return list(other)
+
+    def _new(self, keys):
+        c = OrderedChoiceSet()
+        for k in keys:
+            c._d[k] = None
+        return c
+
+    # ---- in-place bulk operations
+    def update(self, *others):
+        for o in others:
+            for x in self._keys(o):
+                self._d[x] = None
+
+    def difference_update(self, *others):
+        for o in others:
+            for x in self._keys(o):
+                self._d.pop(x, None)
+
+    def intersection_update(self, *others):
+        for o in others:
+            keep = set(self._keys(o))
+            for x in list(self._d):
+                if x not in keep:
+                    del self._d[x]
+
+    def symmetric_difference_update(self, other):
+        for x in self._keys(other):
+            if x in self._d:
+                del self._d[x]
+            else:
+                self._d[x] = None
+
+    def __ior__(self, other):
+        self.update(other); return self
+
+    def __isub__(self, other):
+        self.difference_update(other); return self
+
+    def __iand__(self, other):
+        self.intersection_update(other); return self
+
+    def __ixor__(self, other):
+        self.symmetric_difference_update(other); return self
+
+    # ---- new-set operations
+    def union(self, *others):
+        c = self.copy(); c.update(*others); return c
+
+    def difference(self, *others):
+        c = self.copy(); c.difference_update(*others); return c
+
+    def intersection(self, *others):
+        c = self.copy(); c.intersection_update(*others); return c
+
+    def symmetric_difference(self, other):
+        c = self.copy(); c.symmetric_difference_update(other); return c
+
+    __or__ = lambda self, o: self.union(o)
+    __ror__ = lambda self, o: self.union(o)
+    __sub__ = lambda self, o: self.difference(o)
+    __and__ = lambda self, o: self.intersection(o)
+    __rand__ = lambda self, o: self.intersection(o)
+    __xor__ = lambda self, o: self.symmetric_difference(o)
+    __rxor__ = lambda self, o: self.symmetric_difference(o)
+
+    def __rsub__(self, other):
+        return self._new([x for x in self._keys(other) if x not in self._d])
+
+    # ---- comparisons
+    def __eq__(self, other):
+        try:
+            return set(self._d) == set(self._keys(other)) if isinstance(other, (OrderedChoiceSet, set, frozenset)) else NotImplemented
+        except TypeError:
+            return NotImplemented
+
+    def __ne__(self, other):
+        r = self.__eq__(other)
+        return r if r is NotImplemented else not r
 
     def issubset(self, other):
-        return self.__le__(other)
+        o = set(self._keys(other))
+        return all(x in o for x in self._d)
 
-    def __or__(self, other):
-        c = self.copy()
-        for x in other:
-            c.add(x)
-        return c
+    def issuperset(self, other):
+        return all(x in self._d for x in self._keys(other))
 
-    def __sub__(self, other):
-        c = OrderedChoiceSet()
-        for x in self._d:
-            if x not in other:
-                c.add(x)
-        return c
+    def isdisjoint(self, other):
+        return not any(x in self._d for x in self._keys(other))
+
+    __le__ = lambda self, o: self.issubset(o)
+    __ge__ = lambda self, o: self.issuperset(o)
+    __lt__ = lambda self, o: self.issubset(o) and len(self) < len(self._keys(o))
+    __gt__ = lambda self, o: self.issuperset(o) and len(self) > len(self._keys(o))
 
 
 # ------------------------------------------------------------------------------------------- RNG seam
